@@ -157,7 +157,20 @@ def main(ck):
         # input class of known finding C10/computeY-simple-dof (probed separately): excluded by construction, counted
         labels.add('excluded:sparse-pgs-on-reduced-M')
         jac = E.mjJAC_DENSE
-      d = run(lib, m, d0, solver, island, jac, warm, tol, iters)
+      try:
+        d = run(lib, m, d0, solver, island, jac, warm, tol, iters)
+      except mj.MjError as e:
+        if 'rank-deficient' not in str(e):
+          raise
+        # Newton's Cholesky of M + J'DJ failed: legitimate only for numerically singular problems (stiffness/inertia
+        # ratio > 1e8, e.g. R ~ 1e-15 rows); measured on a CG run of the same state (no Hessian), else a violation
+        dc = run(lib, m, d0, CG, 0, E.mjJAC_DENSE, 0, 0.0, 1)
+        Pc = cons.Problem(lib, m, dc)
+        Yc = np.linalg.solve(np.linalg.cholesky(Pc.M), Pc.J.T)
+        if 1.0 + float(np.linalg.eigvalsh((Yc * Pc.D) @ Yc.T)[-1]) > 1e8:
+          ck.discard('illconditioned-hessian')
+          return
+        raise
       if lib.warnings():
         ck.discard('engine-warning')
         return
@@ -176,6 +189,9 @@ def main(ck):
           raise Violation('problem layout: %s' % errs, bucket='problem-data')
         Sc = trace_scale(P, m)
         lam_min = float(np.linalg.eigvalsh(P.M)[0])
+        Lc = np.linalg.cholesky(P.M)
+        Yw = np.linalg.solve(Lc, P.J.T)            # M^-1/2 J'
+        condH = 1.0 + float(np.linalg.eigvalsh((Yw * P.D) @ Yw.T)[-1])   # cond of the Hessian bound M + J'DJ in the M metric
         nisland = int(d.nisland)
       else:
         # all variants must see the same documented problem
@@ -311,6 +327,10 @@ def main(ck):
           claim = 'pgs-stopped'
           if not np.all(mask):
             labels.add('pgs:stopped-with-excepted-block')
+          elif condH > 1e8:
+            # a(f) = a0 + M^-1 J'f is dominated by cancellation when the constraint stiffness exceeds the inertia by more
+            # than 1e8 (R ~ 1e-15 rows of degenerate contacts): HARNESS rule 2, label + skip
+            labels.add('pgs:illconditioned-skip')
           else:
             # certified suboptimality (doc "Warmstart": duality gap at the constraint forces): primal cost at
             # a(f) = a0 + M^-1 J'f plus dual cost at f is >= 0 and vanishes only at the optimum; a negative value means f is
